@@ -208,6 +208,39 @@ theorem C19_created_after_all_levels (cfg : Chain.CCfg) (levels : List Nat) (nex
     ∀ j, j ≤ levels[n] → Chain.CEntry.ins j (nextId + n) ∈ pre :=
   Chain.created_after_all_levels cfg levels nextId n hn pre suf lv lis h
 
+/-! ## listeners that themselves create rows (the "audit row" pattern)
+
+`stepX` / `runX` (Model/Events.lean) are `step` / `run` for a class whose listeners may create a row
+of another class `B` — from inside any listener (action `spawn`) or from a callback they appended
+(callbacks numbered ≥ 1000).  `projA` is the operated class's part of the log, `projB` the part of `B`. -/
+
+/-- **the class's own events are untouched by such listeners**: state, outcome and the class's own
+    log of every operation / history are exactly those of `step` / `run`, so every theorem above
+    holds verbatim for the `projA` part. -/
+theorem C19_spawning_listeners_leave_events_intact (c : Cfg) (LB : List Listener) (s : State) (nB : Nat) (op : Op) (ops : List Op) :
+    (stepX c LB s nB op).1.1 = (step c s op).1
+    ∧ projA (stepX c LB s nB op).1.2.1 = (step c s op).2.1
+    ∧ (stepX c LB s nB op).1.2.2 = (step c s op).2.2
+    ∧ (runX c LB s nB ops).1.1 = (run c s ops).1
+    ∧ projA (runX c LB s nB ops).2 = (run c s ops).2 :=
+  ⟨(stepX_projA c LB s nB op).1, (stepX_projA c LB s nB op).2.1, (stepX_projA c LB s nB op).2.2,
+   (runX_projA c LB ops s nB).1, (runX_projA c LB ops s nB).2⟩
+
+/-- **a row created from inside a listener or a post-callback gets its events exactly once too**:
+    for every operation (and every history), whatever listener or callback of whatever signal
+    created them — inside RowCreateSignal (nested constructor), inside the flush of the postponed
+    list (RowCreatedSignal listeners and their callbacks: the thunk is appended to the list being
+    flushed), or outside any constructor — the `B` rows inserted are `nB, nB+1, …`, each exactly
+    once, and every listener `ℓ` connected for `B`'s RowCreatedSignal is called for exactly that
+    sequence of rows: none lost, none twice. -/
+theorem C19_nested_create_events_once (ℓ : Nat) (c : Cfg) (LB : List Listener) (hℓ : ℓ ∈ recipients .created 0 LB)
+    (s : State) (nB : Nat) (op : Op) (ops : List Op) :
+    (insIds (projB (stepX c LB s nB op).1.2.1) = List.range' nB ((stepX c LB s nB op).2 - nB)
+      ∧ createdEvs ℓ (projB (stepX c LB s nB op).1.2.1) = insIds (projB (stepX c LB s nB op).1.2.1))
+    ∧ (insIds (projB (runX c LB s nB ops).2) = List.range' nB ((runX c LB s nB ops).1.2 - nB)
+      ∧ createdEvs ℓ (projB (runX c LB s nB ops).2) = insIds (projB (runX c LB s nB ops).2)) :=
+  ⟨(stepX_B ℓ c LB hℓ s nB op).2, (runX_B ℓ c LB hℓ ops s nB).2⟩
+
 /-! ## non-vacuity: the statements talk about non-empty logs -/
 
 /-- a listener adding a key to a single-attribute update: one UPDATE with both columns, one after-event -/
@@ -221,5 +254,14 @@ example :
     Chain.runCreates [[⟨.created, .observe, true⟩], [], [⟨.created, .post 1, false⟩]] 1 [2]
       = [.ins 0 1, .ins 1 1, .ins 2 1, .ev .created 0 0 (some 1), .ev .created 1 0 (some 1),
          .ev .created 2 0 (some 1), .ev .created 2 1 (some 1), .post 1 2 1] := by decide
+
+/-- a RowCreatedSignal listener and a callback it appended both create a `B` row: both rows get
+    their own RowCreatedSignal after the flush reached the appended thunks -/
+example :
+    let c : Cfg := ⟨1, false, [.int 0], [⟨.created, .spawn⟩, ⟨.created, .post 1000⟩]⟩
+    (stepX c [⟨.created, .observe⟩] init 1 (.create [])).1.2.1
+      = [.a (.ins 1 [.int 0]), .a (.ev .created 0 (some 1) none), .b (.ins 1 [.int 0]),
+         .a (.ev .created 1 (some 1) none), .a (.post 1000 1), .b (.ins 2 [.int 0]),
+         .b (.ev .created 0 (some 1) none), .b (.ev .created 0 (some 2) none)] := by decide
 
 end SqlObjVerif.Events
